@@ -92,11 +92,11 @@ def verbWire (fields : List Sexp) : String :=
     let base : SymTable := match field "base" fields with
       | some l => l.filterMap fun x => match x with | .atom h => decodeHex h | _ => none
       | none => []
-    match unmarshal bs with
+    match unmarshalFrom base bs with
     | .error r => encReject r
     | .ok p =>
       match resolveBlocks base p.blocks with
-      | none => "unresolvable"
+      | none => "reject"   -- a block not resolvable from its own and earlier tables is not a token
       | some contents =>
         let e := p.envelope
         let rk := match e.rootKeyId with | some n => toString n | none => "none"
